@@ -84,7 +84,11 @@ def decorate(spec, variant):
 
 
 def roundtrip(res, s, tag):
-    doc, path = save_doc(s, tag)
+    try:
+        doc, path = save_doc(s, tag)
+    except Exception as e:   # save() of a system the editing calls accepted never raises
+        res.v(("C12.save-raises", type(e).__name__), str(e)[:200])
+        return None, None, None
     try:
         s2, _ = quiet_call(System.from_file, path)
     except Exception as e:
@@ -100,6 +104,19 @@ def check_case(case):
         spec = kind_spec(case["kind"], copy.deepcopy(case["P"]), case["lim"])
     elif fam == "tree":
         spec = decorate(spec_from_forest(case["f"], case["pal"], case.get("pol", 1), 0.37), case["variant"])
+    elif fam == "huge":
+        # no user limits anywhere, magnitudes beyond the built-in bounds: the warnings of the original and of the reloaded system are the same
+        V, kind, load = case["V"], case["kind"], case["load"]
+        comps = [dict(n="S", k="Source", a=dict(vo=V, rs=0.0), p=[], g="", r="", pc=None, lim=None)]
+        mid_ = {"none": None, "Converter": dict(vo=V / 2, eff=0.9), "LinReg": dict(vo=V / 2), "PSwitch": dict(rs=1e-3), "RLoss": dict(rs=1e-3), "VLoss": dict(vdrop=1.0),
+                "PMux": dict(rs=1e-3), "Rectifier": dict(vdrop=1.0)}[kind]
+        par = "S"
+        if mid_ is not None:
+            comps.append(dict(n="X", k=kind, a=mid_, p=["S"], g="", r="", pc=None, lim=None, plist=(kind == "PMux")))
+            par = "X"
+        la = {"PLoad": dict(pwr=case["mag"]), "ILoad": dict(ii=case["mag"] / (V / 2)), "RLoad": dict(rs=(V / 2) ** 2 / case["mag"])}[load]
+        comps.append(dict(n="L", k=load, a=la, p=[par], g="", r="", pc=None, lim=None))
+        spec = dict(name="c12 huge", comps=comps, phases=None)
     elif fam == "mux":
         spec = mux_spec([tuple(x) for x in case["inputs"]], case["pal"], case["rs_list"], rails=case["rails"], by_rail=case["rails"], order=case["order"], below=case.get("below", "std"))
     elif fam == "names":   # names that coincide with keys of the file format
@@ -290,6 +307,11 @@ def gen_cases(tier):
     for n in ((3, 4) if tier == "quick" else (3, 4, 5)):
         for f in deep.iter_forests(n):
             yield dict(fam="tree", f=f, pal=pal, variant=2, pol=1, holes=True)
+    for V in (1.0e4, 3.0e6):
+        for kind in ("none", "Converter", "LinReg", "PSwitch", "RLoss", "VLoss", "PMux", "Rectifier"):
+            for load in ("PLoad", "ILoad", "RLoad"):
+                for mag in (1.5e6, 4.0e8):
+                    yield dict(fam="huge", V=V, kind=kind, load=load, mag=mag, pal=pal)
     for k in (2, 3):
         for inputs in itertools.product(INPUT_OPTS[::2] if (k == 3 or tier == "quick") else INPUT_OPTS, repeat=k):
             for order in itertools.permutations(range(k)):
@@ -337,5 +359,5 @@ def main(tier):
              "of each optional parameter, in a 2-phase probe system in which the element sleeps or changes value so that every parameter moves a solved cell; applicable limits, a group and a rail "
              "with a child attached through the rail; (b) every tree of the mid alphabet n<=2 (3 thorough; every 5th n=3 tree in quick) x 4 decorations (rails, by-rail attachment, groups, "
              "limits, phase configurations, negative polarity) and once reached through an edit history with freed / re-used node indices; (c) every 2- and 3-input PMux tuple x EVERY permutation of the priority order; (d) version gate: same / older / newer in "
-             "patch, minor, major. Oracle: solve(energy=True), rail_rep(), params(limits=True), phases(), tree() of S and of from_file(save(S)) equal (keyed, exact); save o load o save is a fixed point; trees additionally with component phase configurations but no system phases, and with a component's limits changed through change_comp after a first save of the same object.",
+             "patch, minor, major. Oracle: solve(energy=True), rail_rep(), params(limits=True), phases(), tree() of S and of from_file(save(S)) equal (keyed, exact); save o load o save is a fixed point; trees additionally with component phase configurations but no system phases, and with a component's limits changed through change_comp after a first save of the same object. (e) systems WITHOUT user limits whose voltages / powers exceed the built-in 1e6 bounds (every series kind x load kind): same warnings after the round trip; save() raising is a violation.",
         assumptions=["only applicable limits are configured (save() writes the applicable subset by design)", "one palette per run"])
